@@ -57,6 +57,22 @@ def operand_file(bits, level, seed):
     return path, vals
 
 
+def unary_operand_file(bits, level, seed):
+    """operands of the one-operand operations (shift, double, square): the binary operand set plus the half-modulus limb product"""
+    m = ref.q if bits == 384 else ref.r
+    _, base = operand_file(bits, level, seed)
+    vals = alpha.dedup(base + alpha.half_limb_product(m, bits // 64, rich=(level > 3)))
+    d = os.path.join(build.BUILD_ROOT, "cases")
+    path = os.path.join(d, "uops_%d_%d_%d.bin" % (bits, level, seed))
+    if not os.path.exists(path):
+        tmp = path + ".%d" % os.getpid()
+        with open(tmp, "wb") as fh:
+            for v in vals:
+                fh.write(v.to_bytes(bits // 8, "little"))
+        os.replace(tmp, path)
+    return path, vals
+
+
 def reduce_file(bits, seed, tier):
     m = ref.q if bits == 384 else ref.r
     vals = c02.crafted_reduction_inputs(m, bits, seed, tier)
@@ -215,7 +231,8 @@ def shards(ctx):
             for alias in (False, True):
                 if alias and op == "bi_square":
                     continue
-                out.append({"sub": "sweep", "bits": bits, "op": op, "alias": alias, "start": 0, "count": n, "n": n, "level": level})
+                nu = len(unary_operand_file(bits, level, ctx.seed)[1])
+                out.append({"sub": "sweep", "bits": bits, "op": op, "alias": alias, "start": 0, "count": nu, "n": nu, "level": level})
         out.append({"sub": "sweep", "bits": bits, "op": "montgomery_reduce", "alias": False, "start": 0, "count": -1, "n": 0, "level": level})
         out.append({"sub": "pyrows", "bits": bits})
     from armsim import runner
@@ -259,9 +276,9 @@ def run_shard(ctx, shard):
         start, count = 0, len(vals)
         unary = True
     else:
-        path, vals = operand_file(bits, shard["level"], ctx.seed)
-        start, count = shard["start"], shard["count"]
         unary = op in UN_OPS
+        path, vals = (unary_operand_file if unary else operand_file)(bits, shard["level"], ctx.seed)
+        start, count = shard["start"], shard["count"]
     n = len(vals)
     res = {}
     for cfg, disp in NATIVE:
